@@ -36,8 +36,10 @@ ASSUMPTIONS = [
     "mod 360); the implementation's distance counts as zero when <= 1e-6 m (scaled by radius / 6378137)",
     "symmetry is asserted bit-exactly on the plane and within 1e-9 relative + 1e-6 m on the sphere (bit-exact "
     "cases are counted)",
-    "circle_kernel's ellipse has the integer semi-axes floor(radius / cellsize) as in its docstring example; the "
-    "map-unit disc reading is counted, not asserted",
+    "circle_kernel's ellipse has the integer semi-axes floor(radius / cellsize) as in its docstring example, the quotient being "
+    "the IEEE quotient of the floats passed in (1 / 0.1 = 10.0: the cell 10 * 0.1 away lies on the ellipse; cases where the exact "
+    "rational floor is one less are counted in counters.*_float_quotient_differs_from_exact_floor); the map-unit disc reading "
+    "is counted, not asserted",
     "radius strings: spellings of the library's unit table are asserted to convert; upper-case units, 'mile' "
     "(listed in the library's error text, absent from its table), scientific notation and a bare number followed "
     "by a blank are left open (ValueError or the natural conversion are both accepted, any other value is not); "
@@ -53,9 +55,12 @@ ASSUMPTIONS = [
 GENERIC_PLANE = (0.1, 0.7)
 PLANE_AXIS = {"quick": [0, 1, -1, 2, -2], "thorough": [0, 1, -1, 2, -2, 3, -3]}
 SPHERE_STEP = {"quick": 45, "thorough": 30}
-SPHERE_EXTRA = {"quick": [], "thorough": [(10.1, 20.7), (-169.9, -20.7)]}      # a generic point and its antipode
+# near-coincident points (5.6 cm and 22 cm apart: distinct points, so a non-zero distance and a triangle inequality that still
+# holds through them); thorough adds a generic point and its antipode
+NEAR = [(30.0, 45.0), (30.0, 45.0000005), (30.000002, 45.0)]
+SPHERE_EXTRA = {"quick": NEAR, "thorough": NEAR + [(10.1, 20.7), (-169.9, -20.7)]}
 RADII = {"quick": [0.5 * k for k in range(1, 11)], "thorough": [0.5 * k for k in range(1, 17)]}
-CELLSIZES = {"quick": [0.5, 1, 2, 3], "thorough": [0.25, 0.5, 1, 1.5, 2, 3]}
+CELLSIZES = {"quick": [0.1, 0.5, 1, 2, 3], "thorough": [0.1, 0.25, 0.3, 0.5, 1, 1.5, 2, 3]}     # 0.1, 0.3: not dyadic
 NUMBERS = ["0", "-1", "1", "1.5", ".5", "10", "1e3", "abc"]
 SEPARATORS = ["", " "]
 UNITS = list(M.UNIT_SPELLINGS) + [""] + list(M.OPEN_SPELLINGS) + list(M.UNKNOWN_UNITS)
@@ -395,6 +400,22 @@ def _axis_tie(radius, cs):
     return M.semi_axis(radius, cs) != M.float_semi_axis(radius, cs)
 
 
+def _circle_mask(cx, cy, r):
+    """The documented mask with the semi-axes taken from the IEEE quotient radius / cellsize, which is what the statement's
+    'radius/cellsize' denotes for the floats passed in (it differs from the exact rational floor only for cell sizes that are not
+    dyadic, e.g. 1 / 0.1 = 10.0 although the double 0.1 is a hair above one tenth)."""
+    a, b = M.float_semi_axis(r, cx), M.float_semi_axis(r, cy)
+    return M.ellipse_mask(a, b), a, b
+
+
+def _annulus_mask(cx, cy, ro, ri):
+    mo, ao, bo = _circle_mask(cx, cy, ro)
+    mi, ai, bi = _circle_mask(cx, cy, ri)
+    pad = np.zeros_like(mo)
+    pad[bo - bi:bo + bi + 1, ao - ai:ao + ai + 1] = mi
+    return mo - pad
+
+
 def circle_space(tier):
     radii, cells = RADII[tier], CELLSIZES[tier]
     radices = [len(radii), len(cells), len(cells), 2]
@@ -406,11 +427,9 @@ def circle_space(tier):
     def fn(rank, out, ctx):
         cx, cy, r = case(rank)
         ident = "cellsize_x=%r|cellsize_y=%r|radius=%r" % (cx, cy, r)
-        if _axis_tie(r, cx) or _axis_tie(r, cy):       # float floor(radius/cellsize) differs from the exact one
-            out.case(outcome=None, nontrivial=False)
-            out.tie()
-            return
-        exp, a, b = M.circle_mask(cx, cy, r)
+        if _axis_tie(r, cx) or _axis_tie(r, cy):       # float floor(radius/cellsize) differs from the exact rational one
+            out.count("circle_float_quotient_differs_from_exact_floor")
+        exp, a, b = _circle_mask(cx, cy, r)
         nontrivial = a >= 1 and b >= 1
         try:
             k = ctx.circle_kernel(cx, cy, r)
@@ -430,7 +449,7 @@ def circle_space(tier):
             out.violation(rank, "circle_%s|%s" % (prefix, ident), "circle_kernel(%r, %r, %r): %s" % (cx, cy, r, msg),
                           case=describe(rank), observed=k, expected=exp)
         if not probs:
-            if not np.array_equal(exp, M.metric_mask(cx, cy, r)):
+            if not (_axis_tie(r, cx) or _axis_tie(r, cy)) and not np.array_equal(exp, M.metric_mask(cx, cy, r)):
                 out.count("circle_differs_from_map_unit_disc")
             if out.want_sample() and nontrivial:
                 out.sample({"cellsize_x": cx, "cellsize_y": cy, "radius": r, "kernel": k})
@@ -456,10 +475,8 @@ def annulus_space(tier):
         cx, cy, ro, ri = case(rank)
         ident = "cellsize_x=%r|cellsize_y=%r|outer=%r|inner=%r" % (cx, cy, ro, ri)
         if any(_axis_tie(r, c) for r in (ro, ri) for c in (cx, cy)):
-            out.case(outcome=None, nontrivial=False)
-            out.tie()
-            return
-        exp = M.annulus_mask(cx, cy, ro, ri)
+            out.count("annulus_float_quotient_differs_from_exact_floor")
+        exp = _annulus_mask(cx, cy, ro, ri)
         nontrivial = bool(exp.any()) and bool((exp == 0).any())
         try:
             k = ctx.annulus_kernel(cx, cy, ro, ri)
